@@ -234,6 +234,11 @@ def unique_assign(fn, var):
     return hits[0] if len(hits) == 1 else None
 
 
+def unique_assign_target(fn, *targets):
+    hits = [n.value for n in ast.walk(fn) if isinstance(n, ast.Assign) and len(n.targets) == 1 and unparse(n.targets[0]) in targets]
+    return hits[0] if len(hits) == 1 else None
+
+
 def single_return(fn):
     rets = [n for n in ast.walk(fn) if isinstance(n, ast.Return)]
     return rets[0].value if len(rets) == 1 else None
@@ -331,6 +336,18 @@ def gen():
     fn = fnof('cohere', 'cache_fft')
     e = unique_assign(fn, 'freqs') if fn is not None else None
     emit('cache_fft', Ctx(fn, {'Fs': '.fs', 'NFFT': '.n'}, trees=trees).g(e) if fn is not None else '.unsupported', unparse(e) if e is not None else None)
+    # what cache_fft returns as its frequency vector: `freqs` (all bins) or `freqs[lb_idx:ub_idx]` (the cached band)
+    sliced = 'none'
+    if fn is not None:
+        rets = [n for n in ast.walk(fn) if isinstance(n, ast.Return)]
+        gb = unique_assign_target(fn, '(lb_idx, ub_idx)', 'lb_idx, ub_idx')
+        if len(rets) == 1 and isinstance(rets[0].value, ast.Tuple) and len(rets[0].value.elts) == 2:
+            r0 = unparse(rets[0].value.elts[0])
+            if r0 == 'freqs':
+                sliced = 'some false'
+            elif r0 == 'freqs[lb_idx:ub_idx]' and gb is not None and unparse(gb) == 'utils.get_bounds(freqs, lb, ub)':
+                sliced = 'some true'
+        echo['cache_fft_sliced'] = {'source': unparse(rets[0].value) if len(rets) == 1 else None, 'term': sliced}
     fn = fnof('cohere', 'correlation_spectrum')
     e = unique_assign(fn, 'f') if fn is not None else None
     emit('correlation_spectrum', Ctx(fn, {'Fs': '.fs', 'n': '.n'}, trees=trees).g(e) if fn is not None else '.unsupported', unparse(e) if e is not None else None)
@@ -392,6 +409,9 @@ def gen():
         lines.append('/-- source: `%s` -/' % (src.replace('-/', '- /') if src else 'NOT FOUND'))
         lines.append('def %s : GridExpr := %s' % (name, text))
         lines.append('')
+    lines.append('/-- does `cache_fft` return the cached band `freqs[lb_idx:ub_idx]` (true) or all of `freqs` (false)? -/')
+    lines.append('def cache_fft_sliced : Option Bool := %s' % sliced)
+    lines.append('')
     lines.append('def sites : List (String × GridExpr) := [')
     lines.append(',\n'.join('  ("%s", %s)' % (name, name) for name, _ in out))
     lines += [']', '', 'end Nitime.Generated.Grids', '']
